@@ -4,6 +4,7 @@
    from /repo/billiard/common.py on this run computes exactly Model.Restart.step. *)
 From Coq Require Import ZArith List Bool.
 From BV Require Import Lib.PyVal Gen.K_restart Model.Restart Proofs.RestartProofs.
+From BV Require Model.Pool Proofs.PoolSup.
 Import ListNotations.
 Open Scope Z_scope.
 
@@ -54,6 +55,23 @@ Theorem C11_raise_counts_nothing : forall s now s',
     step s now = (s', true) -> R s' = 0 /\ T s' = T s.
 Proof. exact raise_forks_nothing. Qed.
 Print Assumptions C11_raise_counts_nothing.
+
+(* pool level: workers that exit with the clean or recycle status never consume budget *)
+Theorem C11_clean_exits_free : forall fuel i codes s,
+    Forall (fun c => Pool.clean_code c = true) codes -> (i + fuel <= length codes)%nat ->
+    Pool.rst (fst (Pool.repopulate fuel i codes s)) = Pool.rst s /\ snd (Pool.repopulate fuel i codes s) = Pool.RNone
+    \/ snd (Pool.repopulate fuel i codes s) = Pool.RExc 14.
+Proof. exact PoolSup.repopulate_clean. Qed.
+Print Assumptions C11_clean_exits_free.
+
+(* an abnormal exit is charged before its replacement is started: a refused restart forks nothing *)
+Theorem C11_refused_forks_nothing : forall i codes s c,
+    Pool.pstate s = 0 -> nth_error codes i = Some c -> Pool.clean_code c = false ->
+    snd (Restart.step (Pool.rst s) (Pool.now s)) = true ->
+    forall fuel, Pool.wlist (fst (Pool.repopulate (S fuel) i codes s)) = Pool.wlist s
+                 /\ snd (Pool.repopulate (S fuel) i codes s) = Pool.RExc 10.
+Proof. exact PoolSup.repopulate_refused_starts_nothing. Qed.
+Print Assumptions C11_refused_forks_nothing.
 
 (* non-vacuity: a reachable state meeting the hypotheses of C11_budget, and the
    theorem's conclusion computed on it: budget 2, window 5 s opened at t=100 *)
